@@ -217,7 +217,9 @@ pub fn describe(seed: u64, index: u64) -> String {
     s
 }
 
-pub fn run_case(seed: u64, index: u64, st: &mut ReStats) {
+/// Returns a digest of what happened (scenario shape, outcome, callback and allocator activity) for
+/// the determinism self-test.
+pub fn run_case(seed: u64, index: u64, st: &mut ReStats) -> u64 {
     // fresh state
     STATES.with(|s| *s.borrow_mut() = [UNUSED; MAXID]);
     NEXT.with(|n| n.set(1));
@@ -493,4 +495,9 @@ pub fn run_case(seed: u64, index: u64, st: &mut ReStats) {
     } else if live != 0 || rep.nleaks != 0 {
         violation("leak:block", format!("`{}`: {} payload(s) never destroyed and {} block(s) never returned in a scenario without any panic", what, live, rep.nleaks));
     }
+    let mut d = shape;
+    for x in [panicked as u64, got_released as u64, NCLONES.with(|c| c.get()) as u64, rep.nleaks as u64, rep.nblocks as u64, live as u64, NEXT.with(|n| n.get()) as u64] {
+        d = mix(d, x);
+    }
+    d
 }
